@@ -98,10 +98,21 @@ func (st *state) decodeFrom(long bool, stream []byte, src int) (val uint64, n in
 	return
 }
 
-var rtPrefix, decPrefix [2][nSrc]string
+var (
+	rtPrefix, decPrefix [2][nSrc]string
+	wrPrefix, lenPrefix [2][nWr]string // class prefixes per writer kind (the Write-only sink keeps the short names)
+)
 
 func init() {
 	for l, tn := range []string{"VarInt", "VarLong"} {
+		for wk := 0; wk < nWr; wk++ {
+			wrPrefix[l][wk] = "enc/" + tn + ".WriteTo/"
+			lenPrefix[l][wk] = "enc/" + tn + ".Len/"
+			if wk != wrPlain {
+				wrPrefix[l][wk] += "writer=" + wrNames[wk] + "/"
+				lenPrefix[l][wk] += "writer=" + wrNames[wk] + "/"
+			}
+		}
 		for src := 0; src < nSrc; src++ {
 			rtPrefix[l][src] = "roundtrip/" + tn + ".ReadFrom/" + srcNames[src] + "/"
 			decPrefix[l][src] = "dec/" + tn + ".ReadFrom/" + srcNames[src] + "/"
@@ -205,12 +216,7 @@ func (st *state) checkEnc(long bool, v int64) {
 			wn, werr = xi.WriteTo(w)
 		}
 		st.trans++
-		pre := "enc/" + tn + ".WriteTo/"
-		preLen := "enc/" + tn + ".Len/"
-		if wk != wrPlain {
-			pre += "writer=" + wrNames[wk] + "/"
-			preLen += "writer=" + wrNames[wk] + "/"
-		}
+		pre, preLen := wrPrefix[b2i(long)][wk], lenPrefix[b2i(long)][wk]
 		if werr != nil {
 			st.failf(pre+"error-on-accepting-writer", "%s(%d).WriteTo(%s writer) returned %v", tn, v, wrNames[wk], werr)
 			continue
@@ -367,22 +373,38 @@ func leadingZeros(u uint64) int {
 	return n
 }
 
-// runDec judges one stream from both sources for both types, with panic recovery.
+// runDec judges one stream from every source kind for both types. The (type, source) cases of one
+// stream run under one panic guard; when a case panics it and the ones after it are re-run under
+// a guard each, so the panic is pinned to its case and the rest is still judged.
 func (st *state) runDec(stream []byte) {
-	for _, long := range []bool{false, true} {
-		for src := 0; src < nSrc; src++ {
-			kind, frame, p := engine.Guard(func() { st.checkDec(long, stream, src) })
-			c := Case{Part: "dec", Type: typeName(long), Hex: hex.EncodeToString(stream), Src: srcNames[src]}
-			if p {
-				st.fails = st.fails[:0]
-				rep.FailLazy("dec/"+typeName(long)+".ReadFrom/"+srcNames[src]+"/panic/"+frame+"/"+kind, streamSize(stream), func() engine.Failure {
-					return engine.Failure{Detail: fmt.Sprintf("panic %s in %s decoding stream %x", kind, frame, stream), Case: c}
-				})
-				continue
-			}
-			if len(st.fails) > 0 {
-				st.flush(func(f fail) (Case, int) { return c, streamSize(stream) })
-			}
+	mkCase := func(idx int) Case {
+		return Case{Part: "dec", Type: typeName(idx/nSrc == 1), Hex: hex.EncodeToString(stream), Src: srcNames[idx%nSrc]}
+	}
+	one := func(idx int) {
+		st.checkDec(idx/nSrc == 1, stream, idx%nSrc)
+		if len(st.fails) > 0 {
+			c := mkCase(idx)
+			st.flush(func(f fail) (Case, int) { return c, streamSize(stream) })
+		}
+	}
+	cur := 0
+	if _, _, p := engine.Guard(func() {
+		for ; cur < 2*nSrc; cur++ {
+			one(cur)
+		}
+	}); !p {
+		return
+	}
+	st.evals-- // the case that panicked is executed again below
+	for ; cur < 2*nSrc; cur++ {
+		idx := cur
+		kind, frame, p := engine.Guard(func() { one(idx) })
+		if p {
+			st.fails = st.fails[:0]
+			c := mkCase(idx)
+			rep.FailLazy("dec/"+c.Type+".ReadFrom/"+c.Src+"/panic/"+frame+"/"+kind, streamSize(stream), func() engine.Failure {
+				return engine.Failure{Detail: fmt.Sprintf("panic %s in %s decoding stream %x from source %s", kind, frame, stream, c.Src), Case: c}
+			})
 		}
 	}
 }
